@@ -243,6 +243,10 @@ def Leaf.emit : Leaf → List Ev
 
 def passEv (b : Bool) : List Ev := if b then [.wl (some passLine)] else []
 
+/-- `if … self.printer.suite_is_empty: self.printer.writeline("pass")` at a ternary or end line (since /repo
+    6d51f05): `hdr` is the header of the clause that is being closed, `suite` the printer calls made since -/
+def fillEv (hdr : Str) (suite : List Ev) : List Ev := passEv (flagAfter (opens hdr).isSome suite)
+
 mutual
 /-- the printer calls of the visitor over a body -/
 def emitCT (el : Bool) : CT → List Ev
@@ -250,23 +254,28 @@ def emitCT (el : Bool) : CT → List Ev
   | .leaf k rest => k.emit ++ emitCT el rest
   | .ctl hdr body terns rest =>
     let lc := hasLoopContext el hdr body terns
-    loopPrologue lc hdr ++ [.wl (some (primaryText lc hdr))] ++
-      passEv (passRule hdr.kw (primaryChildren hdr.kw body terns)) ++
-      emitCT el body ++ emitTerns el hdr.kw terns ++
+    let suite := passEv (passRule hdr.kw (primaryChildren hdr.kw body terns)) ++ emitCT el body
+    loopPrologue lc hdr ++ [.wl (some (primaryText lc hdr))] ++ suite ++ fillEv (primaryText lc hdr) suite ++
+      emitTerns el hdr.kw terns ++
       -- the end line
       [.wl none] ++ (if lc then [.wl (some finallyLine), .wl (some exitLine), .wl none] else []) ++
       emitCT el rest
 def emitTerns (el : Bool) (kw : Str) : Terns → List Ev
   | .nil => []
   | .cons hdr body more =>
-    [.wl (some hdr.text)] ++
-      passEv (passRule hdr.kw (ternaryChildren kw body (match more with | .nil => true | _ => false))) ++
-      emitCT el body ++ emitTerns el kw more
+    let suite := passEv (passRule hdr.kw (ternaryChildren kw body (match more with | .nil => true | _ => false))) ++
+      emitCT el body
+    [.wl (some hdr.text)] ++ suite ++ fillEv hdr.text suite ++ emitTerns el kw more
 end
 
 /-! ## the structured program the visitor means to write -/
 
 def passProg (b : Bool) (p : Prog) : Prog := if b then .line false passLine p else p
+
+/-- a suite in which nothing was written gets a `pass` when its clause is closed -/
+def fillProg : Prog → Prog
+  | .nil => .line false passLine .nil
+  | p => p
 
 def Leaf.prog (k : Leaf) (rest : Prog) : Prog :=
   match k with
@@ -282,7 +291,7 @@ def structOf (el : Bool) : CT → Prog
   | .leaf k rest => k.prog (structOf el rest)
   | .ctl hdr body terns rest =>
     let lc := hasLoopContext el hdr body terns
-    let suite := passProg (passRule hdr.kw (primaryChildren hdr.kw body terns)) (structOf el body)
+    let suite := fillProg (passProg (passRule hdr.kw (primaryChildren hdr.kw body terns)) (structOf el body))
     if lc then
       match hdr.forParts with
       | some (target, iter) =>
@@ -295,8 +304,8 @@ def structTerns (el : Bool) (kw : Str) : Terns → Prog → Prog
   | .nil, k => k
   | .cons hdr body more, k =>
     .comp hdr.text
-      (passProg (passRule hdr.kw (ternaryChildren kw body (match more with | .nil => true | _ => false)))
-        (structOf el body))
+      (fillProg (passProg (passRule hdr.kw (ternaryChildren kw body (match more with | .nil => true | _ => false)))
+        (structOf el body)))
       (structTerns el kw more k)
 end
 
